@@ -4,14 +4,25 @@ use crate::{Result, prelude::*};
 pub struct StepToI64Iterator {
     target: i64,
     step_by: i64,
-    steps_to_target: i64,
+    // The full i64 range can't be counted with an i64
+    steps_to_target: i128,
 }
 
 impl StepToI64Iterator {
     pub fn new(start: i64, target: i64, step_by: i64) -> Self {
-        let steps_to_target = (target - start).abs() / step_by;
-        let step_by = if target < start { -step_by } else { step_by };
-        let target = start + step_by * steps_to_target;
+        // The calculations are made with i128 values to avoid overflows at the i64 limits.
+        // A step size that isn't positive can't reach the target, so the iterator is then empty.
+        let steps_to_target = if step_by > 0 {
+            (target as i128 - start as i128).abs() / step_by as i128
+        } else {
+            -1
+        };
+        let step_by = if target < start {
+            step_by.wrapping_neg()
+        } else {
+            step_by
+        };
+        let target = (start as i128 + step_by as i128 * steps_to_target.max(0)) as i64;
 
         Self {
             target,
@@ -33,7 +44,8 @@ impl KotoIterator for StepToI64Iterator {
     fn next_back(&mut self) -> Option<KIteratorOutput> {
         if self.steps_to_target >= 0 {
             let result = self.target;
-            self.target -= self.step_by;
+            // Stepping back from the first value can go past the i64 limits
+            self.target = self.target.wrapping_sub(self.step_by);
             self.steps_to_target -= 1;
             Some(KIteratorOutput::Value(result.into()))
         } else {
@@ -47,7 +59,7 @@ impl Iterator for StepToI64Iterator {
 
     fn next(&mut self) -> Option<Self::Item> {
         if self.steps_to_target >= 0 {
-            let result = self.target - self.step_by * self.steps_to_target;
+            let result = (self.target as i128 - self.step_by as i128 * self.steps_to_target) as i64;
             self.steps_to_target -= 1;
             Some(KIteratorOutput::Value(result.into()))
         } else {
@@ -56,7 +68,7 @@ impl Iterator for StepToI64Iterator {
     }
 
     fn size_hint(&self) -> (usize, Option<usize>) {
-        let hint = (self.steps_to_target + 1) as usize;
+        let hint = usize::try_from(self.steps_to_target + 1).unwrap_or(usize::MAX);
         (hint, Some(hint))
     }
 }
